@@ -207,6 +207,18 @@ struct Conc : Prop {
 				J post2 = J::arr(); post2.push("quiesce"); rp.set("post", post2); phs.push(rp);
 			}
 		}
+		// long history (one run in 150): more commands than the action-id counter has values (it wraps from 9999 to 1), then ordinary commands again
+		if (is_c11 && r.chance(7)) {
+			std::vector<const cfg::Board *> pb; for (auto &b : w.boards) if (b.present) pb.push_back(&b);
+			if (!pb.empty()) {
+				J ph = J::obj(); J ops = J::arr();
+				J body = J::obj(); body.set("op", "hl"); body.set("fn", "identify"); J sa = J::arr(); sa.push(pb[r.below(pb.size())]->id); body.set("s", sa); body.set("i", pc::jarr({(int) r.below(2)}));
+				J rep = J::obj(); rep.set("op", "repeat"); rep.set("n", (int) r.range(10010, 10300)); rep.set("sleep_every", 4); rep.set("sleep_us", 10000); rep.set("body", body); ops.push(rep);
+				for (int i = 0; i < 4; i++) ops.push(api::hl_op(r, ids));
+				J tasks = J::arr(); tasks.push(ops); ph.set("tasks", tasks); ph.set("long_history", true);
+				J post = J::arr(); post.push("quiesce"); ph.set("post", post); phs.push(ph);
+			}
+		}
 		if (is_c11) { J ph = J::obj(); J pre = J::arr(); J h = J::obj(); h.set("op", "heal"); pre.push(h); ph.set("pre", pre); J post = J::arr(); post.push("quiesce"); ph.set("post", post); phs.push(ph); }
 		se.set("phases", phs);
 		J ss = J::arr();
@@ -233,6 +245,9 @@ struct Conc : Prop {
 		ss.push(se); plan.set("sessions", ss);
 		J sc = sched_json(r, tier, maxt + 2, true);
 		cfg::starve_after_startup(sc, r);
+		// (a backlog of ten thousand answers and a receiver that is descheduled for milliseconds at every twentieth lock operation do not go together:
+		// the run would only show that a slow machine is slow)
+		for (size_t q = 0; q < phs.size(); q++) if (phs[q].getb("long_history")) { sc.set("preempt_permille", 0); sc.set("preempt_max_us", 0); }
 		plan.set("sched", sc);
 		if (!is_c11) plan.set("variant_hint", "asan+tsan");
 		if (fo.kind >= 0) plan.set("focus", fo.kind == 7 ? std::string("position reports of a SecAck board") : fo.getter + ":" + fo.id);
